@@ -1,9 +1,8 @@
 #!/bin/bash
-# run all 20 quick checks of THIS tree against $RTCP_REPO (default /tmp/clean)
 here=$(cd "$(dirname "$0")/.." && pwd)
 export RTCP_REPO=${RTCP_REPO:-/tmp/clean} RTCP_EVIDENCE_DIR=${RTCP_EVIDENCE_DIR:-/tmp/vdev-ev}
 cd $here
 ./check C01 >/dev/null 2>&1
 for i in $(seq -w 1 20); do ( ./check C$i > /tmp/alld_C$i.log 2>&1; echo "C$i exit=$? $(tail -1 /tmp/alld_C$i.log)" ) &
-  if (( 10#$i % 7 == 0 )); then wait; fi
+  if (( 10#$i % 5 == 0 )); then wait; fi
 done; wait
